@@ -25,13 +25,17 @@ type Prop struct{}
 func (Prop) ID() string { return "C07" }
 
 func (Prop) Plan(t vp.Tier) []vp.Stage {
-	return []vp.Stage{
+	st := []vp.Stage{
 		{Name: "enum-cpu", NBatches: 32, TimeoutS: 1500},
 		{Name: "enum-mem", NBatches: 32, TimeoutS: 1500},
-		{Name: "random", NBatches: 16, TimeoutS: 900},
+		{Name: "random", NBatches: 16, TimeoutS: 1200},
 		{Name: "timepop", NBatches: 4, TimeoutS: 300},
-		{Name: "lua", NBatches: 16, TimeoutS: 900},
+		{Name: "lua", NBatches: 16, TimeoutS: 1500},
 	}
+	if t == vp.Thorough {
+		st = append(st, vp.Stage{Name: "enum-cpu-deep", NBatches: 64, TimeoutS: 3000})
+	}
+	return st
 }
 
 const (
@@ -42,11 +46,31 @@ const (
 // the value set of the property's quantifier
 var valueSet = []uint64{0, 1, 2, 3, 10, two63, maxU - 1, maxU}
 
-func enumDepth(t vp.Tier) int {
-	if t == vp.Thorough {
+// enumDepth is the length of the exhaustively enumerated histories.
+func enumDepth(t vp.Tier, stage string) int {
+	switch stage {
+	case "enum-cpu":
+		return 5
+	case "enum-cpu-deep":
 		return 6
 	}
-	return 5
+	if t == vp.Thorough {
+		return 5
+	}
+	return 4
+}
+
+// alphabetCPUDeep is the cpu alphabet without the values 2 and 2^64-2 (their
+// neighbours 1, 3 and 2^64-1 stay), used one operation deeper in the thorough tier.
+func alphabetCPUDeep() []op {
+	var a []op
+	for _, o := range alphabetCPU() {
+		if (o.k == opPush || o.k == opCPU) && (o.n == 2 || o.n == maxU-1 || o.def == hc(2) || o.def == hc(maxU-1)) {
+			continue
+		}
+		a = append(a, o)
+	}
+	return a
 }
 
 func (Prop) Describe(t vp.Tier) vp.Description {
@@ -56,7 +80,7 @@ func (Prop) Describe(t vp.Tier) vp.Description {
 			"of the active context and of every ancestor reached through Parent(), the stack depth, the context returned by PopContext/CallContext and the error returned by " +
 			"CallContext are compared with the ctxmodel stack machine (written from quotas.md), plus the structural clauses (child hard <= parent hard - used, soft <= hard, " +
 			"flags include the parent's, used < kill). Stages enum-cpu / enum-mem enumerate EVERY applicable history of the stated length over the stated alphabets " +
-			"(limits and amounts from {0,1,2,3,10,2^63,2^64-2,2^64-1}); random samples histories of 40 operations over full definitions (cpu, memory, time, soft limits, flags). " +
+			"(limits and amounts from {0,1,2,3,10,2^63,2^64-2,2^64-1}); random samples 5e4 / 1e6 histories of 40 operations over full definitions (cpu, memory, time, soft limits, flags). " +
 			"timepop makes a time limit expire while a child context is being popped and checks the stack stays balanced (no expiry verdict). " +
 			"Lua level: generated programs nest runtime.callcontext, pcall and coroutines; for each returned context status (predicted from the program's shape), " +
 			"child.kill <= parent.kill - parent.used, stop <= kill, used < kill, due <=> stop requested or used >= stop, flags inclusion, parent.used grows by at least child.used, " +
@@ -71,7 +95,8 @@ func (Prop) Describe(t vp.Tier) vp.Description {
 		Floor:      map[vp.Tier]int64{vp.Quick: 20000, vp.Thorough: 200000}[t],
 		Exhaustive: true,
 		Extra: map[string]interface{}{
-			"exhaustive_space": fmt.Sprintf("stages enum-cpu and enum-mem: all applicable histories of exactly %d operations (shorter ones are their prefixes) over alphabets of %d and %d operations", enumDepth(t), len(alphabetCPU()), len(alphabetMem())),
+			"exhaustive_space": fmt.Sprintf("stage enum-cpu: all applicable histories of exactly %d operations over an alphabet of %d operations; stage enum-mem: exactly %d operations over %d; thorough tier also enum-cpu-deep: exactly %d operations over the %d-operation cpu alphabet without the values 2 and 2^64-2 (shorter histories are prefixes of the enumerated ones)",
+				enumDepth(t, "enum-cpu"), len(alphabetCPU()), enumDepth(t, "enum-mem"), len(alphabetMem()), enumDepth(t, "enum-cpu-deep"), len(alphabetCPUDeep())),
 			"alphabet_cpu":     histString(alphabetCPU()),
 			"alphabet_mem":     histString(alphabetMem()),
 		},
@@ -79,13 +104,14 @@ func (Prop) Describe(t vp.Tier) vp.Description {
 }
 
 func (Prop) RunBatch(c *vp.Child) {
-	defer startProf()()
 	debug.SetGCPercent(1000) // tiny live heap, millions of short-lived context copies
 	switch c.Stage {
 	case "enum-cpu":
-		runEnum(c, alphabetCPU(), enumDepth(c.Tier))
+		runEnum(c, alphabetCPU(), enumDepth(c.Tier, c.Stage))
 	case "enum-mem":
-		runEnum(c, alphabetMem(), enumDepth(c.Tier))
+		runEnum(c, alphabetMem(), enumDepth(c.Tier, c.Stage))
+	case "enum-cpu-deep":
+		runEnum(c, alphabetCPUDeep(), enumDepth(c.Tier, c.Stage))
 	case "random":
 		runRandom(c)
 	case "timepop":
@@ -368,7 +394,7 @@ func runRandom(c *vp.Child) {
 	defer cnt.flush(c)
 	r := c.Rand("histories")
 	gen := genOp(r)
-	n := c.Pick(50000, 2000000) / c.NB
+	n := c.Pick(50000, 1000000) / c.NB
 	for i := 0; i < n; i++ {
 		var root *cm.Def
 		if i%50 == 7 {
